@@ -32,7 +32,7 @@ func (fu *fetchUnit) cycle(app risc.Application, ctx *risc.Context, outBus *comp
 	if fu.complete {
 		return
 	}
-	if fu.pc/4 >= int32(len(app.Instructions)) {
+	if fu.pc < 0 || fu.pc/4 >= int32(len(app.Instructions)) {
 		// Redirected past the last instruction: nothing left to fetch
 		fu.complete = true
 		return
